@@ -110,11 +110,14 @@ def gen_dt(rng):
             rng.choice([0, 1, 999999, 500000, rng.randrange(10 ** 6)])]
 
 
+UNI_BLANKS = ["\u00a0", "\u202f", "\u2009", "\u3000"]
+
+
 def gen_parse(rng):
     t = rng.choice(R.TEMPLATES)
     op = ["parse", t["name"], gen_dt(rng), None, 0,
           rng.choice(["module", "module", "p0", "p1", "info", "pinfo",
-                      "info_override"]),
+                      "info_override", "pinfo_late"]),
           rng.choice(["str", "str", "str", "bytes", "stringio",
                       "shortstream", "stringio_offset"]),
           rng.choice(["explicit", "explicit", "clock"])]
@@ -329,6 +332,13 @@ def do_parse(env, op, text, flags):
         if via == "info":
             return env.parser.parse(x, parserinfo=info, **kw)
         return env.parser.parser(info).parse(x, **kw)
+    if via == "pinfo_late":
+        # the reading configured on the parser's parserinfo AFTER the parser
+        # was built (public attributes of a public object)
+        p = env.parser.parser(env.parser.parserinfo())
+        p.info.dayfirst = bool(kw.pop("dayfirst", False))
+        p.info.yearfirst = bool(kw.pop("yearfirst", False))
+        return p.parse(x, **kw)
     return env.parsers[via].parse(x, **kw)
 
 
@@ -361,6 +371,13 @@ def run_one(env, ctx, op, who="main"):
     if b is None:
         return None
     text, flags, want, want_off = b
+    k = sum(op[2]) + len(text)
+    if op[6] != "bytes" and k % 13 == 0 and " " in text:
+        # the blanks of the rendering written as other Unicode blanks (no-
+        # break space, narrow no-break space as ICU puts in front of AM/PM,
+        # thin space, ideographic space): white space to str.isspace()
+        text = text.replace(" ", UNI_BLANKS[k // 13 % len(UNI_BLANKS)])
+        ctx.probe("unicode_blanks")
     t = R.BY_NAME[op[1]]
     if t["twodigit"]:
         ctx.probe("two_digit_year")
